@@ -124,7 +124,7 @@ let parse_op (toks : string list) : (string * op option * string) =
   | _ -> failwith ("bad op: " ^ S.concat " " toks)
 
 let kf_of (o : op) : string =
-  if kf_C13_1 o then "kf_C13_1" else if kf_C13_2 o then "kf_C13_2" else if kf_C13_3 o then "kf_C13_3" else "none"
+  if kf_C13_2 o then "kf_C13_2" else if kf_C13_3 o then "kf_C13_3" else "none"
 
 let run (path : string) =
   let lines = read_lines path in
@@ -135,6 +135,7 @@ let run (path : string) =
   let model = ref (init_state (fun _ -> false) (fun _ -> false)) in
   let prev_impl : state option ref = ref None in
   let cur_op : (string * op option * string) ref = ref ("init", None, "ok") in
+  let pre_ops : (string * op) list ref = ref [] in   (* further auctions closed by the same real unit *)
   let o = ref (new_obs ()) in
   let taint = ref "none" in
   let dead = ref false in
@@ -153,6 +154,13 @@ let run (path : string) =
       let (kind, mop, res) = !cur_op in
       let impl = state_of_obs !in_assets !in_apps !o in
       (* 1. model step *)
+      let had_pre = !pre_ops <> [] in
+      L.iter (fun (k, op) ->
+          (match Locker.step !model op with
+           | Base.Ok s' -> model := s'; (let kf = kf_of op in if kf <> "none" then taint := kf); bump ("op:" ^ k ^ ":ok(pre)")
+           | Base.Err c -> mismatch ~case:!case ~step:!step ~field:("result:" ^ k) ~model:("err" ^ zs c) ~impl:"ok"
+           | Base.Panic -> mismatch ~case:!case ~step:!step ~field:("result:" ^ k) ~model:"panic" ~impl:"ok")) (L.rev !pre_ops);
+      pre_ops := [];
       (match mop with
        | None -> ()
        | Some op ->
@@ -177,6 +185,7 @@ let run (path : string) =
       if rm <> ri then model := impl;
       (* 3. the property predicates, on the implementation's state *)
       let pf pred kf detail = predfail ~case:!case ~step:!step ~pred ~kf ~detail in
+      (match mop with Some op when res = "ok" -> (let kf = kf_of op in if kf <> "none" then taint := kf) | _ -> ());
       if not (holds_C13_locker !apps !assets impl) then pf "holds_C13_locker" "none" kind;
       if not (holds_C13_nonneg !apps !assets impl) then pf "holds_C13_nonneg" "none" kind;
       if not (holds_C13_backed !apps !assets impl) then pf "holds_C13_backed" !taint kind;
@@ -187,8 +196,10 @@ let run (path : string) =
          let keys = L.concat (L.map (fun a -> L.map (fun d -> (a, d)) !assets) !apps) in
          if not (holds_C13_pay p op impl) then pf "holds_C13_pay" "none" kind;
          let rate_kf = (match op with UpdLookup _ -> !taint | _ -> kf) in
-         if not (holds_C13_delta keys p op impl) then pf "holds_C13_delta" rate_kf kind;
-         if not (holds_C13_flow !apps !assets p op impl) then pf "holds_C13_flow" rate_kf kind;
+         if not had_pre then begin
+           if not (holds_C13_delta keys p op impl) then pf "holds_C13_delta" rate_kf kind;
+           if not (holds_C13_flow !apps !assets p op impl) then pf "holds_C13_flow" rate_kf kind
+         end;
          (* histograms *)
          (match op with
           | LCreate _ | LDeposit _ | LWithdraw _ | LClose _ -> incr ok_locker
@@ -231,6 +242,10 @@ let run (path : string) =
         Buffer.add_string sig_ (S.concat " " rest ^ ";");
         cur_op := parse_op rest;
         o := new_obs ()
+      | "pre" :: rest ->
+        (match parse_op rest with
+         | (k, Some op, _) -> pre_ops := (k, op) :: !pre_ops
+         | _ -> ())
       | "L" :: next :: n :: rest ->
         !o.o_next <- zo next;
         let rec go i l = if i = 0 then [] else match l with
